@@ -95,15 +95,24 @@ let judge op a got =
       expect ~extra:(same_asis (join ["ok"; hx ab; cmp_s ac]) got ^ " cls=" ^ cmp_s c) (join ["ok"; hx b; cmp_s c]) got
   | "rtof_fast" ->
       (* bounded error only: the documented contract is "the mantissa can be off by one bit" *)
-      let (f, _) = fmt_of_name (arg 0) in
-      let (n, d) = reduce (z (arg 1), z (arg 2)) in
+      let (f, p) = fmt_of_name (arg 0) in
+      let nd = (z (arg 1), z (arg 2)) in
+      let reduce2 (n, d) = if Zar.sign n = 0 then (zero, one) else
+          let k = min (Zar.trailing_zeros n) (Zar.trailing_zeros d) in (Zar.shift_right n k, Zar.shift_right d k) in
+      let (n, d) = reduce nd in
       let (b, _) = ieee_rne f n d in
+      let (n2, d2) = reduce2 nd in
+      let a1 = rat_to_float_fast p n d and a2 = rat_to_float_fast p n2 d2 in
+      let want = "ok " ^ hx b ^ " +-1" in
       (match got with
        | ["ok"; g; "|"; h] ->
            let d1 = Zar.abs (Zar.sub (z g) b) and d2 = Zar.abs (Zar.sub (z h) b) in
            let diff = Zar.max d1 d2 in
-           if Zar.leq diff one then pass ~extra:("cls=off" ^ Zar.to_string diff) () else fail ("ok " ^ hx b ^ " +-1")
-       | _ -> fail ("ok " ^ hx b ^ " +-1"))
+           let fid = Zar.equal (z g) a1 && Zar.equal (z h) a2 in
+           if Zar.leq diff one then pass ~extra:((if fid then "asis=same" else "asis=diff") ^ " cls=off" ^ Zar.to_string diff) ()
+           else if fid && Zar.leq diff (zi 2) then known "rat_to_float_fast_two_ulps" want
+           else fail want
+       | _ -> fail want)
   | "r2f" ->
       let (f, _) = fmt_of_name (arg 0) in
       let (n, d) = reduce (z (arg 1), z (arg 2)) in
